@@ -251,6 +251,10 @@ class TermEval:
                 if key is None:
                     if isinstance(t, ast.Subscript) and isinstance(self._expr(t.value, p), SOpq):
                         continue       # store into an opaque (non-string) local, e.g. matrix_size[1] = 1
+                    if isinstance(t, (ast.Tuple, ast.List)) and isinstance(v, SOpq) and all(self._target_key(e) is not None for e in t.elts):
+                        for i, e in enumerate(t.elts):      # rows, columns = x.matrix_size(): the parts of an opaque value are opaque
+                            p.env[self._target_key(e)] = SOpq("expr", "%s[%d]" % (v.text, i))
+                        continue
                     raise _Unsupported("assignment target %r" % src(t))
                 p.env[key] = v
             return [p]
